@@ -11,7 +11,7 @@ from ..setalg import Universe, SetInterp, Opaque, Unmodelled
 from .. import codegen
 from ..codegen import TemplateEval, Sym, Elem
 from ..cfg import CFG, expand_conds
-from ..layers import layers_of_var, layers_of_expr, index_of
+from ..layers import layers_of_var, layers_of_expr, layers_of_value, index_of
 from ..astutil import argn, assigned_value
 from .common import (cfg_of, fkey, conds, has_cond, cond_texts, stmts_of, walk_body, call_tail, call_name,
                      returns_of, raises_of, raise_type, stmt_of, kwarg)
@@ -1425,8 +1425,9 @@ def check_request_layers(rep, rule, rule_identity=None):
         inj = [c for c in walk_body(fi.node) if isinstance(c, ast.Call) and call_name(c) == 'inject']
         if len(inj) != 1:
             raise AnalysisError('%s: expected one inject call' % q)
-        v = norm(inj[0].args[1])
-        ls = layers_of_var(fi.node, v)
+        if len(inj[0].args) < 2:
+            raise AnalysisError('%s: inject call without the injectables argument' % q)
+        ls = layers_of_value(fi.node, inj[0].args[1])
         i_lit = index_of(ls, lambda l: l.kind == 'literal')
         i_res = index_of(ls, lambda l: l.text == 'self.resources')
         i_kw = index_of(ls, lambda l: l.text == 'kwargs')
@@ -1459,7 +1460,7 @@ def check_request_layers(rep, rule, rule_identity=None):
         rep.fail(rule, fkey(fi, 'execute(**params)'), 'route.execute is not called with exactly **params: %s' % short(exe[0]), app, exe[0])
         return
     pv = norm(star[0])
-    ls = layers_of_var(fi.node, pv)
+    ls = layers_of_value(fi.node, star[0])
     # expand one level: params = dict(base_params, **path_params)
     flat = []
     for l in ls:
